@@ -14,7 +14,13 @@
    response may carry; [C06_partition_*_restricted] push this through the count and base
    extractors of all nine row x column class pairs; every further measure (C03-C17) is a
    function of those, so it takes the same value on partition k and on the 2-D analysis of
-   the restricted survey. *)
+   the restricted survey.
+
+   Findings: the 3-D column-index baseline (C16-3d-baseline-wrong-table) is repaired in the code
+   and in Model/CubeCounts.v, so nothing here is conditional on the position of missing table
+   elements.  Open: augment_response overwrites a weighted count measure with the positioned
+   unweighted counts -- the model keeps that behaviour, [C06_augment_places] is about the list
+   that IS positioned and [C06_augment_weighted_count_refuted] exhibits the witness. *)
 From Coq Require Import QArith ZArith List Bool Lia Arith Sorted.
 From CC Require Import Base.XQ Base.ListX Spec.Survey Spec.Restrict Model.CubeCounts Model.Partition
      Proofs.CubeCountsProofs Proofs.CubeCountsIndex Proofs.PartitionSurvey Proofs.PartitionStructure
@@ -454,3 +460,51 @@ Example C06_example_numeric_set :
   option_map (map (map (fun po => option_map (fun so => map (map xred) (so_counts so)) (po_slice_w po))))
              (partition_sets [c0; c1]) = Some [[None; Some [[Fin 3; Fin 4]]]].
 Proof. cbv zeta. split; vm_compute; reflexivity. Qed.
+
+(* ------------------------------------------------------------------------------------ *)
+(* THE TIE TO THE SOURCE TEXT (DESIGN 2.4 (a)).  Gen/CubeCountsSrc.v and Gen/StripeCountsSrc.v
+   are rewritten from /repo/src/cr/cube/{matrix,stripe}/cubemeasure.py on every check by the ast
+   translator (harness/translate).  What the source of _slice_idx_expr SAYS NOW is the
+   [slice_idx_expr] of the theorems above (2-D: everything; MR first dimension: np.s_[k, 0], the
+   SELECTED plane; else np.s_[k]); every matrix factory hands the measure's array cut by it to
+   the class; the stripe factory takes [counts[slice_idx]] with the categorical class exactly
+   when ca_as_0th.  [None] = the translator could not read the method (then only the
+   correspondence and the relational oracle tie it).  A change of meaning in the source breaks
+   these obligations. *)
+From Coq Require Import String.
+From CC Require Import Base.Tensor Gen.CubeCountsSrc Gen.StripeCountsSrc Gen.Tables
+     Proofs.GenAgreeTac Proofs.GenAgreeCounts Proofs.PartitionGen.
+
+Theorem C06_gen_slice_idx_expr :
+  match src_slice_idx_expr with
+  | Some R => forall ds k (T : tensor) idx, idx <> [] ->
+      slice_rule_apply R (cube_ndim ds) (table_is_mr ds) k T idx = slice_idx_expr ds k T idx
+  | None => True
+  end.
+Proof. exact gen_slice_idx_expr_partition. Qed.
+Print Assumptions C06_gen_slice_idx_expr.
+
+Theorem C06_gen_factory_arguments :
+  binds_to src_CubeCounts_binds "_counts" (FSliced (FParam "counts")) /\
+  binds_to src_CubeMeans_binds "_means" (FSliced (FCube "means")) /\
+  binds_to src_CubeMedians_binds "_medians" (FSliced (FCube "medians")) /\
+  binds_to src_CubeStdDev_binds "_stddev" (FSliced (FCube "stddev")) /\
+  binds_to src_CubeSums_binds "_sums" (FSliced (FCube "sums")) /\
+  binds_to src_UnconditionalCubeCounts_binds "_counts_with_missings"
+           (FSliced (FCube "counts_with_missings")).
+Proof. exact gen_factory_binds. Qed.
+Print Assumptions C06_gen_factory_arguments.
+
+(* stripe factory: ca_as_0th => _CatCubeCounts on counts[slice_idx] (second component true =
+   the tensor is cut), whatever the rows dimension; otherwise the class of the rows dimension
+   on the whole tensor *)
+Theorem C06_gen_stripe_factory :
+  match ssrc_CubeCounts_dispatch, tbl_DT_members with
+  | Some D, Some _ =>
+      (forall k, stripe_pick true k (fst D) (snd D) = (stripe_class_name CCat, true)) /\
+      (forall k, k = DCat \/ k = DMrSubvar \/ k = DNumArr ->
+         stripe_pick false k (fst D) (snd D) = (stripe_class_name (cls_of (mkDim k [])), false))
+  | _, _ => True
+  end.
+Proof. exact gen_stripe_dispatch. Qed.
+Print Assumptions C06_gen_stripe_factory.
